@@ -26,6 +26,24 @@ field_type('ElementsTuple', 'names', 'list[str]')
 field_type('Elementary', 'elementaryIndex', 'int | None')
 field_type('Variable', 'variableId', 'int | None')
 
+field_type('IdManager', 'free_betas', 'ElementsTuple | None')
+field_type('IdManager', 'fixed_betas', 'ElementsTuple | None')
+field_type('ElementsTuple', 'expressions', 'dict[str, Beta] | None')
+
+
+def WF(m):
+    """(m5, round 3) class invariant of a PREPARED id manager, as far as get_value_and_derivatives reads it: the two tuples of
+    parameters exist, with their dictionaries, and every listed name is a key of the dictionary of expressions.  Established by
+    IdManager.prepare, which IdManager.__init__ always runs (proved under C03: contracts/c03c_prepare.py, clauses *_names_are_keys);
+    free_betas / fixed_betas are assigned nowhere else in the package."""
+    parts = []
+    for f in ('free_betas', 'fixed_betas'):
+        t = f'{m}.{f}'
+        parts += [f'{t} is not None', f'{t}.expressions is not None', f'{t}.indices is not None',
+                  f'forall(lambda q: {t}.names[q] in {t}.expressions, 0, len({t}.names))']
+    return ' and '.join(parts)
+
+
 IDT = {'id_manager': 'IdManager | None'}
 _ABSENT = 'id_manager is not None and (id_manager.variables.indices is None or self.name not in id_manager.variables.indices)'
 contract(E + 'Variable.set_id_manager', 'C12', types=IDT,
@@ -121,7 +139,7 @@ contract(IDM + 'prepare', 'C12', verify=False,
          modifies=['self.free_betas', 'self.bounds', 'self.number_of_free_betas', 'self.fixed_betas', 'self.random_variables',
                    'self.draws', 'self.variables', 'self.elementary_expressions', 'self.free_betas_values',
                    'self.fixed_betas_values', '*.theDraws', '*.typesOfDraws', '*.number_of_draws'],
-         raises={'BiogemeError': 'numbering_fails(self.expressions, self.database)'}, ensures={'t': 'True'},
+         raises={'BiogemeError': 'numbering_fails(self.expressions, self.database)'}, ensures={'prepared': WF('self')},
          label='IdManager.prepare(assumed)',
          note='numbering of the names (its own refusals, e.g. one name for two kinds of element, are covered by the bounded harness)')
 _VARS = "names_of_type(self.expressions[q], TypeOfElementaryExpression.VARIABLE)"
@@ -133,6 +151,7 @@ contract(IDM + '__init__', 'C12',
          raises={'BiogemeError': f"(database is None and exists(lambda q: c12_nonempty(names_of_type(expressions[q], TypeOfElementaryExpression.VARIABLE)), 0, len(expressions)))"
                                  " or numbering_fails(expressions, database)"},
          ensures={'stored': 'same(self.database, database) and seq_eq(self.expressions, expressions)',
+                  'prepared': WF('self'),      # (m5) every id manager that exists has been prepared
                   # (m5, round 3) draws are asked for IFF some formula holds a MonteCarlo operator or a draw, wherever it sits
                   'draws_required_iff_some_formula_has_draws': 'self.requires_draws == ' + _NEEDS.replace('LIM', 'len(expressions)')},
          invariants={1: {'clauses': {
@@ -231,7 +250,8 @@ detail = f'{got}'
 contract(BASE + 'prepare', 'C12', verify=False, types={'database': 'Database | None', 'number_of_draws': 'int'},
          modifies=['*.id_manager', '*.elementaryIndex', '*.variableId', '*.drawId', '*.rvId', '*.betaId',
                    '*.theDraws', '*.typesOfDraws', '*.number_of_draws'],
-         raises={'BiogemeError': 'prepare_refuses(self, database, number_of_draws)'}, ensures={'has_ids': 'self.id_manager is not None'},
+         raises={'BiogemeError': 'prepare_refuses(self, database, number_of_draws)'},
+         ensures={'has_ids': 'self.id_manager is not None', 'prepared': WF('self.id_manager')},
          label='Expression.prepare(assumed)', note='builds the identifiers (IdManager.__init__ and the propagation are under contract separately)')
 _OUT_KINDS = ('isinstance(result, BiogemeFunctionOutputSmartOutputProxy) or '
               'isinstance(result, BiogemeDisaggregateFunctionOutputSmartOutputProxy)')
@@ -253,7 +273,10 @@ _OTHER = ("(prepare_ids and prepare_refuses(self, database, number_of_draws)) or
 contract(BASE + 'get_value_and_derivatives', 'C12',
          types={'betas': 'dict[str, float] | None', 'database': 'Database | None', 'number_of_draws': 'int', 'gradient': 'bool',
                 'hessian': 'bool', 'bhhh': 'bool', 'aggregation': 'bool', 'prepare_ids': 'bool', 'named_results': 'bool'},
-         returns='Any', check_frame=False, check_safe=False,
+         returns='Any', check_frame=False,
+         # (m5, round 3) check_safe=False removed: the implicit None / key checks are obligations again, under the class invariant
+         # of id managers (every IdManager is prepared by its constructor: ensures `prepared` of IdManager.__init__)
+         requires={'prepared_manager': 'implies(self.id_manager is not None, ' + WF('self.id_manager') + ')'},
          # (m5, round 3) BOTH directions: refused IFF one of the faults of the property, or one of the assumed callees
          # (numbering of the names, propagation of the identifiers, compiled engine) refuses.  "No false rejection":
          # without a fault and without a refusal of those callees a value is returned.
